@@ -133,6 +133,7 @@ func (env *c09Env) check(s *specs.Spec) (msg string, rejected bool) {
 				msg = fmt.Sprintf("cache over %s lists %q, want %q", keep, gotDevs, wantDevs)
 				return
 			}
+			seenSpec := map[*specs.Spec]bool{} // the devices of one file share one Spec object: its image is compared once
 			for q, d := range byName {
 				cd := cache.GetDevice(q)
 				if cd == nil {
@@ -145,9 +146,12 @@ func (env *c09Env) check(s *specs.Spec) (msg string, rejected bool) {
 					msg = fmt.Sprintf("cache over %s: device %q differs: %s", keep, q, firstDiff(string(a), string(b)))
 					return
 				}
-				if specImage(cd.GetSpec().Spec) != want {
-					msg = fmt.Sprintf("cache over %s: Spec of %q differs from the one written", keep, q)
-					return
+				if sp := cd.GetSpec().Spec; !seenSpec[sp] {
+					seenSpec[sp] = true
+					if specImage(sp) != want {
+						msg = fmt.Sprintf("cache over %s: Spec of %q differs from the one written", keep, q)
+						return
+					}
 				}
 			}
 		}
